@@ -69,6 +69,42 @@ PROPS = {
         "rule": "union of all profiles under ASan+UBSan; non-trivial = a run of >= 3 operations; distinct = distinct plan hashes",
         "assumptions": COMMON_ASSUME,
     },
+    "C08": {
+        "arms": [arm("io", 0, weight=4), arm("io", 1, weight=3), arm("io", 0, "asan0", weight=1)],
+        "rule": "live objects after arbitrary histories are written in LP format (path plain/.gz/.bz2, caller FILE*, reporter sink) over the simulated disk and read back (path or line reader); non-trivial = at least one undamaged LP file of a problem meeting the precondition was read back and compared by name with the model it was written from; distinct = distinct plan hashes",
+        "assumptions": COMMON_ASSUME + ["the round-trip law is asserted only for files on whose path no destructive fault fired"],
+    },
+    "C09": {
+        "arms": [arm("io", 0, weight=4), arm("io", 1, weight=3), arm("io", 0, "asan0", weight=1)],
+        "rule": "as C08 for MPS output, including LP->MPS->LP and MPS->LP->MPS chains; non-trivial = at least one undamaged MPS file was read back and compared (native RANGES included); distinct = distinct plan hashes",
+        "assumptions": COMMON_ASSUME + ["the round-trip law is asserted only for files on whose path no destructive fault fired"],
+    },
+    "C11": {
+        "arms": [arm("reader", 1, weight=5), arm("reader", 1, "asan0", weight=1), arm("io", 1, weight=2)],
+        "rule": "files written by the library or by the harness's own LP/MPS renderer are damaged on the simulated disk (torn, bit flips, zeroed tail, dropped/duplicated 512-byte blocks, read errors, mid-token junk, 20-160 kB tokens) and then read (problem readers via path and line reader, basis readers); non-trivial = at least one damaged file was offered to a reader; distinct = distinct plan hashes",
+        "assumptions": COMMON_ASSUME + ["a crash or hang inside a read operation in the reader profile is attributed to C11, elsewhere to C17"],
+    },
+    "C13": {
+        "arms": [arm("lu", 1, weight=5), arm("lu", 0, weight=2), arm("lu", 1, weight=1, long=1), arm("hist", 1, weight=2), arm("solve", 0, weight=1)],
+        "rule": "component level: histories of factor/update/ftran/btran on mpq_ILLfactor_* with randomised knobs, every solve checked against a dense rational reference; API level: B^-1 and tableau rows multiplied back after solves cut short and resumed; non-trivial = at least one exact multiply-back or solve comparison; distinct = distinct plan hashes",
+        "assumptions": COMMON_ASSUME,
+    },
+    "C14": {
+        "arms": [arm("io", 0, weight=4), arm("io", 1, weight=3)],
+        "rule": "basis files written (own basis or a given one) and read back against the same problem, then arbitrary further operations; non-trivial = a basis write checked for leaving the object untouched, or an undamaged basis file read back and compared; distinct = distinct plan hashes",
+        "assumptions": COMMON_ASSUME,
+    },
+    "C18": {
+        "arms": [arm("hist", 1, "asan0", weight=3, leakcheck=1), arm("reader", 1, "asan0", weight=3, leakcheck=1), arm("solve", 1, "asan0", weight=2, leakcheck=1), arm("invalid", 1, "asan0", weight=2, leakcheck=1), arm("io", 1, "asan0", weight=2, leakcheck=1), arm("cli", 0, "asan0", weight=1, leakcheck=1)],
+        "rule": "union of profiles in the EG_LPNUM_MEMSLAB=0 flavour (GMP numbers come from malloc); after all documented frees and QSexactClear LeakSanitizer's recoverable check runs; violation class = innermost three library frames of the allocation stack; non-trivial = a run of >= 3 operations; distinct = distinct plan hashes",
+        "assumptions": COMMON_ASSUME + ["allocation failure is not injected (the library terminates on it by design)"],
+        "slow_unwind": True,
+    },
+    "C19": {
+        "arms": [arm("cli", 0, weight=4), arm("cli", 1, weight=3)],
+        "rule": "esolver.c (compiled from /repo with main renamed) runs as a forked child on the simulated disk with generated argv; non-trivial = at least one invocation judged (exit code, solution file parsed and certificate-checked, -b/-B basis); distinct = distinct plan hashes",
+        "assumptions": COMMON_ASSUME + ["the problem a readable file denotes is taken to be what the library's reader makes of it (C08/C09 decide that relation)"],
+    },
     "C20": {
         "arms": [arm("hist", 1, weight=3), arm("invalid", 1, weight=3), arm("solve", 1, weight=2), arm("config", 1, weight=1)],
         "rule": "fd 1 and 2 are captured around every library call with a log handler installed; non-trivial = a run of >= 3 operations (every run exercises the oracle after each call); distinct = distinct plan hashes",
